@@ -180,6 +180,17 @@ def gen_cases(ctx, n_random):
     add("wide_260_rules", wide_grammar(rng, 270, 260), "N", all_off, n_inputs=3)
     add("wide_64_tokens", wide_grammar(rng, 63, 7), "O", Opts(avoid_insert=True), n_inputs=3)   # + EOF = 64 tokens
     add("wide_128_tokens", wide_grammar(rng, 127, 8), "G", Opts(avoid_insert=True, nonascii=True), n_inputs=3)
+    # accept-state shapes: the state holding [^ -> S ., $] also holds completed items of other rules / shifts (a derived
+    # per-state view recomputed after reconstitution must treat Accept like the constructor does), and the rare shapes
+    tt, rr = (lambda x: ('t', x)), (lambda x: ('r', x))
+    for g in (G.Gram(["x", "y"], [("S", [[rr("T"), tt("x")], [tt("y")]]), ("T", [[rr("S")]])]),
+              G.Gram(["x", "y"], [("S", [[rr("A")]]), ("A", [[rr("S"), tt("x")], [tt("y")]])]),
+              G.Gram(["a", "b"], [("S", [[rr("S"), tt("a")], [tt("b")]])]),
+              G.Gram(["x", "y", "z"], [("S", [[rr("T"), tt("x")], [rr("U"), tt("z")], [tt("y")]]), ("T", [[rr("S")]]), ("U", [[rr("S")]])])):
+        add("accept_state_shape", g, "O", all_off, n_inputs=4)
+        add("accept_state_shape", g, "N", all_off, n_inputs=2)
+    for src, _, _ in G.rare_shape_corpus():
+        add("rare_shapes", G.from_text(src), "O", all_off, n_inputs=3)
     fams = [("random", lambda: G.random_grammar(rng)),
             ("reduced", lambda: G.reduced_random_grammar(rng)),
             ("nullable", lambda: G.nullable_heavy(rng)),
